@@ -76,6 +76,12 @@ def _segment(r, n, style, p, positive, level):
             for _ in range(r.choice([0, 1, 1, 2])):
                 x = math.nextafter(x, math.inf if r.random() < 0.5 else -math.inf)
             xs.append(x)
+    elif style == "tight":
+        # a non-constant window whose relative spread sits on a ladder 1e-12 .. 1e-4: "noise floor" clamps and relative-tolerance
+        # flatness tests (sqrt(eps), 1e-9, 1e-6 ...) treat such a window as flat although its statistic is well-conditioned
+        eps = r.choice([1e-12, 1e-10, 1e-8, 1e-6, 1e-5, 3e-5, 1e-4])
+        lv = r.choice([100.0, level])
+        xs = [lv * (1.0 + eps * ((3 * k + (k // 7)) % 5)) for k in range(n)]
     else:
         raise ValueError(style)
     if positive:
